@@ -7,7 +7,7 @@ ENGINE = "region_machine"
 
 TIERS = {
     "quick": {"n": 6000, "wall_cap_s": 420, "selftest": 32, "shrink_budget_s": 40},
-    "thorough": {"n": 120000, "wall_cap_s": 3000, "selftest": 64, "shrink_budget_s": 90},
+    "thorough": {"n": 80000, "wall_cap_s": 5400, "selftest": 64, "shrink_budget_s": 90},
 }
 
 META = {
@@ -44,12 +44,17 @@ def prepare():
     rm.setup()
 
 
-def fixed_cases():
+def fixed_cases(tier="quick"):
     """Bounded-exhaustive part: every word of length 3 (depth 3) and of length 2 (depth 2) over the 16-letter alphabet
     of engines/region_machine.py, in blocks of all words with a given first letter."""
     n = len(rm.LETTERS)
-    return ([{"mode": 63, "enum_confirm": 1, "enum_depth": 0, "enum_block": b, "enum_second": 0} for b in range(n)] +
-            [{"mode": 63, "enum_confirm": 1, "enum_depth": 1, "enum_block": b, "enum_second": c} for b in range(n) for c in range(n)])
+    cases = ([{"mode": 63, "enum_confirm": 1, "enum_depth": 0, "enum_block": b, "enum_second": 0} for b in range(n)] +
+             [{"mode": 63, "enum_confirm": 1, "enum_depth": 1, "enum_block": b, "enum_second": c} for b in range(n) for c in range(n)])
+    if tier == "thorough":
+        # all 65 536 four-letter words at depth 3, in blocks of 256 (given first two letters)
+        cases += [{"mode": 63, "enum_confirm": 1, "enum_depth": 1, "enum_len4": 1, "enum_block": b, "enum_second": c}
+                  for b in range(n) for c in range(n)]
+    return cases
 
 
 def _enum_case(ch, out):
@@ -59,9 +64,12 @@ def _enum_case(ch, out):
     n = 0
     # a fixed case = all words with a given first letter (depth 2, words of length 2) or with given first two letters
     # (depth 3, words of length 3)
+    len4 = depth == 3 and ch.draw("enum_len4", 2) == 1
     for second in (rm.LETTERS if depth == 2 else (sec,)):
         for third in (rm.LETTERS if depth == 3 else ("",)):
-            word = first + second + third
+          for fourth in (rm.LETTERS if len4 else ("",)):
+            third_ = third + fourth
+            word = first + second + third_
             rm.run_scripted(out, word, depth=depth)
             n += 1
             if out.violations:
@@ -69,8 +77,8 @@ def _enum_case(ch, out):
                 out.sample = {"enumerated_word": word, "depth": depth}
                 return out
     out.stats["enumerated_histories"] += n
-    out.sample = {"enumerated_block": (first + "*") if depth == 2 else (first + sec + "*"), "depth": depth, "words": n}
-    out.feed("enum %s%s %d" % (first, sec, depth))
+    out.sample = {"enumerated_block": (first + "*") if depth == 2 else (first + sec + "*"), "depth": depth, "words": n, "word_length": 2 if depth == 2 else (4 if len4 else 3)}
+    out.feed("enum %s%s %d %s" % (first, sec, depth, len4))
     return out
 
 
